@@ -567,7 +567,7 @@ def gen_c16(tier):
 pub fn c16_substr_n%(n)d_%(k)d() {
     substr_case(%(n)d, %(wl)s);
 }
-''' % dict(n=n, k=3 if with_len else 2, tier="quick" if q else "thorough", mem=(8 if n == 0 else 24) if n < 2 else 28, to=900 if n < 2 else 2400, opt="" if n < 2 else " optional=1",
+''' % dict(n=n, k=3 if with_len else 2, tier="quick" if q else "thorough", mem=(8 if n == 0 else 24) if n < 2 else 28, to=900, opt="" if n < 2 else " optional=1",
            l=", length = every i64" if with_len else "", unw=max(4 * n + 2, 3), wl="true" if with_len else "false")
     quick_pairs = {(0, 1), (1, 2), (6, 2), (2, 0), (0, 6)}
     for a in range(9):
@@ -583,7 +583,7 @@ pub fn c16_cat1_%(sa)s() {
     cat1(%(a)d);
 }
 ''' % dict(sa=CAT_SHAPES[a], a=a, tier="quick" if a in (0, 1, 2, 6) else "thorough",
-           to=600 if a in (0, 1, 2, 6) else 1800, mem=8 if a in (0, 1, 2, 6) else 20, opt="" if a in (0, 1, 2, 6) else " optional=1")
+           to=600 if a in (0, 1, 2, 6) else 900, mem=8 if a in (0, 1, 2, 6) else 20, opt="" if a in (0, 1, 2, 6) else " optional=1")
         for b in range(9):
             cheap = a in (0, 1, 2, 6) and b in (0, 1, 2, 6)
             if not cheap and (a, b) not in ((3, 0), (5, 6), (7, 0), (4, 1)):
@@ -600,7 +600,7 @@ pub fn c16_cat2_%(sa)s_%(sb)s() {
     cat2(%(a)d, %(b)d);
 }
 ''' % dict(sa=CAT_SHAPES[a], sb=CAT_SHAPES[b], a=a, b=b, tier="quick" if (a, b) in quick_pairs else "thorough",
-           to=600 if (a, b) in quick_pairs else 1800, mem=8 if (a, b) in quick_pairs else 20,
+           to=600 if (a, b) in quick_pairs else 900, mem=8 if (a, b) in quick_pairs else 20,
            opt="" if ((a, b) in quick_pairs or (a in (0, 1, 2, 6) and b in (0, 1, 2, 6))) else " optional=1")
     return {"c16_op.rs": out}
 
@@ -665,7 +665,7 @@ pub fn c02_near_%(id)s_%(kn)s() {
             '{" var": "a"} (leading whitespace)', '{"var ": "a"} (trailing whitespace)', '{"i": []} (prefix of "if"/"in")']
     for k in range(7):
         out += '''
-//@ harness: c02_literal_object_%(k)d tier=%(tier)s timeout=1800 kind=main mem=24%(opt)s
+//@ harness: c02_literal_object_%(k)d tier=%(tier)s timeout=900 kind=main mem=24%(opt)s
 //@ encodes: Parsed::from_value, Operation/LazyOperation/DataOperation::from_value, op::op_from_map x3 tables, Raw::evaluate
 //@ bound: object %(doc)s: parsed as Raw and evaluates to the very same value (pointer identity), whatever the data
 #[cfg_attr(kani, kani::proof)]
@@ -731,7 +731,7 @@ pub fn c15_in_num_%(ra)s_%(rb)s() {
 pub fn c15_merge_%(k)d() {
     merge_case(%(k)d);
 }
-''' % dict(k=k, doc=docs[k], tier="quick" if k in (0, 1) else "thorough", to=600 if k < 2 else 1800, mem=8 if k < 2 else 24, opt="" if k < 2 else " optional=1")
+''' % dict(k=k, doc=docs[k], tier="quick" if k in (0, 1) else "thorough", to=600 if k < 2 else 900, mem=8 if k < 2 else 24, opt="" if k < 2 else " optional=1")
     return {"c15_op.rs": out}
 
 
